@@ -23,12 +23,17 @@
 
 #include "common.h"
 #include "cmd_itoa.h"
+#include "cmd_memcmp.h"
+#include "cmd_pool.h"
+#include "cmd_quote.h"
+#include "cmd_strdec.h"
 
 int main(int argc, char** argv) {
   std::ios::sync_with_stdio(false);
   std::string line;
   std::string out;
   out.reserve(1 << 16);
+  static vpool::State pool_state;
   while (std::getline(std::cin, line)) {
     std::vector<std::string> tok = split(line);
     out.clear();
@@ -36,6 +41,14 @@ int main(int argc, char** argv) {
       out = "bad-op";
     } else if (tok[0] == "u64toa" || tok[0] == "i64toa") {
       cmd_itoa(tok, out);
+    } else if (tok[0] == "memcmp") {
+      cmd_memcmp(tok, out);
+    } else if (tok[0] == "quote") {
+      cmd_quote(tok, out);
+    } else if (tok[0] == "parsestr") {
+      cmd_parsestr(tok, out);
+    } else if (tok[0].compare(0, 5, "pool-") == 0) {
+      vpool::cmd(pool_state, tok, out);
     } else {
       out = "bad-op";
     }
